@@ -998,8 +998,47 @@ func generateInner(rng *rand.Rand, steps int, profile string, hosts []string, gp
 			if reps := g.replicas(); len(reps) > 0 && rng.Float64() < 0.8 {
 				a = reps[rng.Intn(len(reps))].Address
 			}
-			im.c.RemoveReplica(a)
-			g.emit("rm "+a, "ok")
+			// sometimes a write arrives while the removal holds the controller lock (it is inside the
+			// backend's Close): the write must be decided on the state the removal leaves — if the
+			// volume has lost its quorum by then it is refused, whatever the state was when it arrived
+			var wres chan string
+			if !im.c.ReadOnly && rng.Float64() < 0.3 {
+				wres = make(chan string, 1)
+				launched := false
+				im.w.OnClose = func(string) {
+					launched = true
+					go func() {
+						k, err := im.c.WriteAt(make([]byte, 4096), 0)
+						r := classify(err, "Mode: ReadOnly", "EOF:")
+						if err == nil && k != 4096 {
+							r = "failed"
+						}
+						wres <- r
+					}()
+					time.Sleep(80 * time.Millisecond)
+				}
+				im.c.RemoveReplica(a)
+				im.w.OnClose = nil
+				if !launched {
+					wres = nil
+				}
+			} else {
+				im.c.RemoveReplica(a)
+			}
+			if wres != nil {
+				r := "hung"
+				select {
+				case r = <-wres:
+				case <-time.After(10 * time.Second):
+				}
+				g.lines = append(g.lines, "rm "+a)
+				g.outs = append(g.outs, "*|ok ; ")
+				g.lines = append(g.lines, "w 0 4096 | - | -")
+				g.outs = append(g.outs, "~|"+g.im.state(r))
+				g.feat["remove-overlapped-by-write"] = true
+			} else {
+				g.emit("rm "+a, "ok")
+			}
 			g.feat["remove"] = true
 		case "setmode":
 			im.w.Script = map[string]string{}
